@@ -2,6 +2,8 @@
 // The source is a fixed finite byte sequence; rest() is the part not yet handed out.
 pub trait VRead: Sized {
     spec fn rest(&self) -> Seq<u8>;
+    // the whole byte sequence of the source (rest() is a suffix of it; which suffix is tracked by the user of the reader)
+    spec fn total(&self) -> Seq<u8>;
     // "this reader never reports an I/O error" (true for Cursor/slices; for files it is the absence of I/O faults)
     spec fn never_fails(&self) -> bool;
     fn read(&mut self, buf: &mut [u8]) -> (r: std::io::Result<usize>)
@@ -17,6 +19,7 @@ pub trait VRead: Sized {
                 &&& (n == 0 ==> old(buf)@.len() == 0 || old(self).rest().len() == 0)
             },
             r is Err ==> final(self).rest() == old(self).rest(),
+            final(self).total() == old(self).total(),
             final(self).never_fails() == old(self).never_fails(),
             old(self).never_fails() ==> r is Ok;
 }
